@@ -53,6 +53,13 @@ func recompType(r *Rng) *GTy {
 	}
 }
 
+// HolderOther nests types from package other whose short names clash with registered ones.
+type HolderOther struct {
+	In other.Inner
+	E  []other.EmbA
+	P  *other.Inner
+}
+
 type histStep struct {
 	name string
 	run  func(rc *alt.Recomposer)
@@ -70,7 +77,7 @@ func suiteRecompose(tier string, seed uint64, model string) *Report {
 		var hs []histStep
 		k := r.Intn(5)
 		for i := 0; i < k; i++ {
-			switch r.Intn(6) {
+			switch r.Intn(7) {
 			case 0:
 				hs = append(hs, histStep{"other.Inner", func(rc *alt.Recomposer) {
 					_, _ = rc.Recompose(map[string]any{"Q": "q", "A": 1.5}, &other.Inner{})
@@ -96,6 +103,11 @@ func suiteRecompose(tier string, seed uint64, model string) *Report {
 				hs = append(hs, histStep{"struct{A string}", func(rc *alt.Recomposer) {
 					var x struct{ A string }
 					_, _ = rc.Recompose(map[string]any{"A": "a"}, &x)
+				}})
+			case 5:
+				// registering a type whose FIELD has a type that shares its short name with a registered one
+				hs = append(hs, histStep{"register HolderOther{In other.Inner; E []other.EmbA}", func(rc *alt.Recomposer) {
+					_ = rc.RegisterComposer(&HolderOther{}, nil)
 				}})
 			default:
 				hs = append(hs, histStep{"EmbB", func(rc *alt.Recomposer) {
